@@ -10,12 +10,15 @@ CONSTANTS NS,          \* scripts 1..NS; script s has key prefix Pre(s)
           NP,          \* prefixes 0..NP-1 (the code walks 65536 two-byte prefixes)
           MaxRow,      \* max_hist_row_entries
           MaxTx,       \* bound on tx numbers created
-          MaxSteps, Export
+          MaxSteps, Export,
+          Variant      \* "code", or "nocancelserve": the re-open for serving does not cancel an unfinished compaction
+                       \* (must violate HistoryPreserved: the state read back from disk still holds the cursor)
 
 Scripts == 1..NS
 Pre(s) == (s - 1) % NP
 
-VARIABLES mode,        \* "server" | "stopped" | "tool" | "tooldone" (all batches done, set_flush_count pending)
+VARIABLES mode,        \* "sync" (opened for sync, not yet caught up) | "server" (re-opened for serving) | "stopped"
+                       \* | "tool" | "tooldone" (all batches done, set_flush_count pending)
           rows, hfc, cc, cfc,     \* history DB: rows and its state record (flush_count, comp_cursor, comp_flush_count)
           mcc, mcfc, mhfc,        \* the same three as held in memory by the running process
           ufc,                    \* UTXO DB flush count
@@ -38,7 +41,7 @@ Hist(R, s) == CatRows(RowsOf(R, s))
 
 (* ---- server: a flush writes one row per touched script under flush id hfc + 1 ---- *)
 Flush ==
-  /\ mode = "server" /\ txn < MaxTx
+  /\ mode \in {"sync", "server"} /\ txn < MaxTx
   /\ \E T \in (SUBSET Scripts) \ {{}} :
        /\ rows' = rows \cup { [s |-> s, f |-> mhfc + 1, nums |-> <<txn>>] : s \in T }
        /\ truth' = [s \in Scripts |-> IF s \in T THEN Append(truth[s], txn) ELSE truth[s]]
@@ -65,12 +68,22 @@ ServerStop == /\ mode = "server" /\ mode' = "stopped" /\ Ev([e |-> "stop"])
 Excess == hfc > ufc
 OpenRows == IF Excess THEN { r \in rows : r.f <= ufc } ELSE rows
 OpenFc == IF Excess THEN ufc ELSE hfc
-(* server start: an unfinished compaction is cancelled (in memory; persisted by the next state write) *)
+(* server start (open_for_sync): an unfinished compaction is cancelled (in memory; persisted by the next state write) *)
 ServerStart ==
-  /\ mode = "stopped" /\ mode' = "server"
+  /\ mode = "stopped" /\ mode' = "sync"
   /\ rows' = OpenRows /\ hfc' = OpenFc /\ mhfc' = OpenFc
   /\ mcc' = -1 /\ mcfc' = -1
   /\ Ev([e |-> "start"])
+  /\ UNCHANGED <<cc, cfc, ufc, truth, txn, overflow>>
+(* first catch-up (open_for_serving): the history DB is closed and opened again - its state record is read back from
+   disk, where the cursor of an abandoned compaction still stands unless a flush has happened since the start - and
+   the compaction is cancelled again *)
+Serve ==
+  /\ mode = "sync" /\ mode' = "server"
+  /\ rows' = OpenRows /\ hfc' = OpenFc /\ mhfc' = OpenFc
+  /\ mcc' = IF Variant = "nocancelserve" THEN cc ELSE -1
+  /\ mcfc' = IF Variant = "nocancelserve" THEN cfc ELSE -1
+  /\ Ev([e |-> "serve"])
   /\ UNCHANGED <<cc, cfc, ufc, truth, txn, overflow>>
 (* the tool: open for compacting (no cancel), continue where it left off *)
 ToolStart ==
@@ -112,7 +125,7 @@ Kill ==
   /\ mode \in {"tool", "tooldone"} /\ mode' = "stopped" /\ Ev([e |-> "kill"])
   /\ UNCHANGED <<rows, hfc, cc, cfc, mcc, mcfc, mhfc, ufc, truth, txn, overflow>>
 
-Next == Flush \/ Backup \/ ServerStop \/ ServerStart \/ ToolStart \/ CompactBatch \/ SetFlushCount \/ Kill
+Next == Flush \/ Backup \/ ServerStop \/ ServerStart \/ Serve \/ ToolStart \/ CompactBatch \/ SetFlushCount \/ Kill
 Spec == Init /\ [][Next]_vars
 
 (* ---- properties (C14) ---- *)
@@ -124,5 +137,5 @@ HistoryPreserved == overflow \/ (KeysUnique /\ \A s \in Scripts : Hist(rows, s) 
 (* tool phases never change any history, whatever the overflow *)
 ToolPreserves == mode \in {"tool", "tooldone"} => \A s \in Scripts : Hist(rows, s) = truth[s]
 (* a fresh flush id is above every existing row of the scripts it can touch *)
-FreshIdAbove == (mode = "server" /\ ~overflow) => \A r \in rows : r.f <= mhfc
+FreshIdAbove == (mode \in {"sync", "server"} /\ ~overflow) => \A r \in rows : r.f <= mhfc
 =============================================================================
